@@ -62,6 +62,13 @@ THEOREMS = [
     "Scenic.Vis.altitude_window_iff",
     "Scenic.Vis.inViewVolume_iff_angles",
     "Scenic.Vis.grid_ray_in_windows",
+    # round 4: the angular pruning of the object branch and the ray-grid end points
+    "Scenic.Vis.Prune.prune_front_sound",
+    "Scenic.Vis.Prune.prune_behind_sound",
+    "Scenic.Vis.Prune.prune_both_sound",
+    "Scenic.Vis.Prune.prune_windows_within_view",
+    "Scenic.Vis.Prune.normAz_range",
+    "Scenic.Vis.Prune.linspace_in_window",
     # visible regions and the 2D compatibility mode
     "Scenic.Vis.inWindows_full",
     "Scenic.Vis.inViewVolume_full_iff",
@@ -100,7 +107,7 @@ THEOREMS = [
 ]
 SIDE = ["Scenic.C17.gen_cfg_reference", "Scenic.C17.gen_objcfg_reference", "Scenic.C17.gen_wrapcfg_reference",
         "Scenic.C17.gen_cfg2d_reference"]
-LEAN_MODULES = ["ScenicModel.Props.C17", "ScenicModel.Props.C17Angles", "ScenicModel.Props.C17Flat", "ScenicModel.Props.C17Shadow", "ScenicModel.Props.C17Cert", "ScenicModel.Props.C17Object",
+LEAN_MODULES = ["ScenicModel.Props.C17", "ScenicModel.Props.C17Prune", "ScenicModel.Model.VisibilityPrune", "ScenicModel.Props.C17Angles", "ScenicModel.Props.C17Flat", "ScenicModel.Props.C17Shadow", "ScenicModel.Props.C17Cert", "ScenicModel.Props.C17Object",
                 "ScenicModel.Props.C17Point", "ScenicModel.Props.C17Slab", "ScenicModel.Lemmas.Visibility",
                 "ScenicModel.Model.Visibility", "ScenicModel.Gen.Visibility"]
 
@@ -367,6 +374,51 @@ class Real:
             return bool(viewer.canSee(target, occludingObjects=tuple(occ)))
         except Exception as e:  # any exception is a disagreement with the model
             return "crash:" + type(e).__name__
+
+    def can_see_rec(self, viewer, target, occ):
+        """canSee on an object target with the inputs and outputs of the angular pruning of the object branch recorded:
+        the array-valued arctan2 / arcsin results (vertex angles), the two np.any results (crossing flags) and the end
+        points of the np.linspace calls (the windows in which rays are cast).  numpy is seen by visibility.py through a
+        transparent proxy for the duration of the call; nothing in the computation is changed."""
+        import scenic.core.visibility as vis
+        npm = self.np
+        rec = {"az": None, "alt": None, "any": [], "lin": []}
+
+        class Proxy:
+            def __getattr__(_, name):
+                return getattr(npm, name)
+
+            def arctan2(_, y, x, *a, **k):
+                r = npm.arctan2(y, x, *a, **k)
+                if getattr(r, "ndim", 0) >= 1 and rec["az"] is None:
+                    rec["az"] = [float(t) for t in r]
+                return r
+
+            def arcsin(_, x, *a, **k):
+                r = npm.arcsin(x, *a, **k)
+                if getattr(r, "ndim", 0) >= 1 and rec["alt"] is None:
+                    rec["alt"] = [float(t) for t in r]
+                return r
+
+            def any(_, x, *a, **k):
+                r = npm.any(x, *a, **k)
+                rec["any"].append(bool(r))
+                return r
+
+            def linspace(_, a, b, *rest, **k):
+                ab = (float(a), float(b))
+                if not rec["lin"] or rec["lin"][-1] != ab:
+                    rec["lin"].append(ab)
+                return npm.linspace(a, b, *rest, **k)
+
+        old = vis.np
+        vis.np = Proxy()
+        try:
+            real = self.can_see(viewer, target, occ)
+        finally:
+            vis.np = old
+        rec["va"] = tuple(float(x) for x in viewer.viewAngles)
+        return real, rec
 
 
 # --------------------------------------------------------------------------- generators
@@ -858,6 +910,60 @@ def unit_dir_candidates(v, box):
 SHAPES = ["box", "box", "sphere", "cyl", "cone"]
 
 
+def check_prune(ctx, recs):
+    """(C) the angular pruning of the object branch: the windows in which the real code casts rays (or its early
+    `return False`) vs `Prune.pruneWindows` on the vertex angles / crossing flags the real code computed.  A case is
+    compared only when the model's decision (pruned / number of windows) is the same with both half-angles moved by
+    +-1e-12; window end points are compared to 1e-9."""
+    eps = F(1, 10 ** 12)
+    lines, keep = [], []
+    for v, tgt, real, rec in recs:
+        if rec["az"] is None or rec["alt"] is None or len(rec["any"]) != 2 or isinstance(real, str):
+            ctx.hist("prune", "not-reached" if not isinstance(real, str) else "crash")
+            continue                     # centre shortcut / distance rejection: the pruning was not reached
+        if len(rec["az"]) != len(rec["alt"]) or len(rec["az"]) > 120 or len(rec["lin"]) % 2:
+            ctx.hist("prune", "skipped(shape)")
+            continue
+        A, Bv = F(rec["va"][0] / 2), F(rec["va"][1] / 2)
+        for d in (0, eps, -eps):
+            lines.append(" ".join(["C17", "prune", fr(F(math.pi)), fr(A + d), fr(Bv + d), str(int(rec["any"][0])),
+                                   str(int(rec["any"][1])), str(len(rec["az"]))] + [fr(F(x)) for x in rec["az"]]
+                                  + [fr(F(x)) for x in rec["alt"]]))
+        keep.append((v, tgt, real, rec))
+    # a malformed stream must be rejected, not mis-read
+    lines += ["C17 prune 3 1 1 1 0 2 1/2", "C17 prune x", "C17 prune 3 1 1 0 0 0"]
+    out = ctx.driver(lines) if lines else []
+    if out[-3:] != ["bad-op", "bad-op", "none"]:
+        ctx.broken("correspondence", "prune driver protocol", f"malformed lines answered {out[-3:]}")
+    bad = 0
+    for i, (v, tgt, real, rec) in enumerate(keep):
+        m0, m1, m2 = (out[3 * i + j].split() for j in range(3))
+        if not (m0[:2] == m1[:2] == m2[:2]):
+            ctx.hist("prune", "undecided(boundary)")
+            continue
+        lin = rec["lin"]
+        real_w = [(lin[k + 1][0], lin[k + 1][1], lin[k][0], lin[k][1]) for k in range(0, len(lin), 2)]
+        if m0[0] == "none":
+            model_w = []
+        else:
+            q = [float(F(x)) for x in m0[2:]]
+            model_w = [tuple(q[4 * k:4 * k + 4]) for k in range(int(m0[1]))]
+        flags = ("ahead" if rec["any"][0] else "") + ("behind" if rec["any"][1] else "") or "neither"
+        ctx.hist("prune", f"{flags}:{'pruned' if not model_w else str(len(model_w)) + '-window'}")
+        ctx.case(("prune", rec["va"], tuple(rec["az"]), tuple(rec["alt"]), tuple(rec["any"])), nontrivial=True)
+        same = len(real_w) == len(model_w) and all(abs(a - b) <= 1e-9 for rw, mw in zip(real_w, model_w) for a, b in zip(rw, mw))
+        if not model_w and not real_w and real is not False:
+            same = False
+        if not same:
+            bad += 1
+            if bad <= 3:
+                ctx.broken("correspondence", "Prune.pruneWindows vs the pruning of visibility.canSee (object branch)",
+                           f"viewer={jsonable(v)} target={jsonable(tgt)} flags={flags} viewAngles={rec['va']}: "
+                           f"real windows (h0,h1,v0,v1)={real_w} result={real}; model={model_w}")
+    ctx.extra["prune_cases_compared"] = len(keep)
+    return False
+
+
 def run_objects(ctx, R, use_model):
     rng = ctx.rng
     n = B(ctx, 170, 2500)
@@ -898,6 +1004,7 @@ def run_objects(ctx, R, use_model):
     found = False
     k = 0
     stats = {"outside": 0, "inside": 0, "undecided": 0}
+    precs = []
     for v, mode, tgt, subs, shape in scenes:
         out = lean[k] == "1"
         geo = lean[k + 1].split()
@@ -931,7 +1038,8 @@ def run_objects(ctx, R, use_model):
             stats["outside"] += 1
             # occluders cannot make an outside object visible either
             occ_d = gen_occluders(rng, v, tgt["c"])[:2]
-            real = R.can_see(viewer, target, [R.box(b) for b in occ_d])
+            real, prec = R.can_see_rec(viewer, target, [R.box(b) for b in occ_d])
+            precs.append((v, tgt, real, prec))
             ctx.hist("object_oracle", "outside:" + str(real))
             rep.update(occluders=jsonable(occ_d), expect=False)
             if real is not False:
@@ -941,7 +1049,8 @@ def run_objects(ctx, R, use_model):
                                        rep)
         elif inside or whole_inside:
             stats["inside"] += 1
-            real = R.can_see(viewer, target, [])
+            real, prec = R.can_see_rec(viewer, target, [])
+            precs.append((v, tgt, real, prec))
             ctx.hist("object_oracle", f"{'whole' if whole_inside else 'substantial-part'}-inside(centre {'inside' if centre_in else 'outside'}):" + str(real))
             rep["expect"] = True
             if real is not True:
@@ -950,12 +1059,14 @@ def run_objects(ctx, R, use_model):
                                        f"{'the whole bounding box' if whole_inside else 'at least a quarter of the box'} lies inside the view volume", rep)
         else:
             stats["undecided"] += 1
-            real = R.can_see(viewer, target, [])        # no ground truth: only crash-freedom is checked
+            real, prec = R.can_see_rec(viewer, target, [])        # no ground truth: only crash-freedom is checked
+            precs.append((v, tgt, real, prec))
             ctx.hist("object_oracle", "undecided:" + str(real))
             rep["expect"] = "no-crash"
             if isinstance(real, str):
                 found |= ctx.violation(f"canSee-object:{real}", f"canSee raised {real} on an object target", rep)
     ctx.extra["object_oracle"] = stats
+    check_prune(ctx, precs)
     return found
 
 
